@@ -29,6 +29,28 @@ fn usage() -> ! {
 fn main() {
     // the vendored tokio runs spawn_blocking jobs synchronously (vendor/tokio/RLSIM_PATCH.md)
     unsafe { std::env::set_var("RLSIM_INLINE_BLOCKING", "1") };
+    // One address-space layout for every process of every invocation: ahash (the hash maps of
+    // the hash aggregation / hash join executors) seeds itself from the address of a static, so
+    // with ASLR the iteration order of those maps - and with it which rows an unordered LIMIT
+    // returns - would differ between the run that found a violation and the replay of its file.
+    if std::env::var_os("RLSIM_NOASLR").is_none() {
+        unsafe {
+            std::env::set_var("RLSIM_NOASLR", "1");
+            const ADDR_NO_RANDOMIZE: libc::c_ulong = 0x0040000;
+            let cur = libc::personality(0xffffffff);
+            if cur != -1 && libc::personality(cur as libc::c_ulong | ADDR_NO_RANDOMIZE) != -1 {
+                use std::os::unix::process::CommandExt;
+                let err = std::process::Command::new("/proc/self/exe")
+                    .args(std::env::args_os().skip(1))
+                    .exec();
+                eprintln!("note: re-exec without ASLR failed ({err}); continuing with ASLR");
+            }
+        }
+    }
+    // ahash 0.7 (egg's symbol table) offers no way to replace its random source, whose state is
+    // the address of a heap allocation made at first use: make that first use here, where every
+    // rlsim process has the same allocation history (and, above, the same address-space layout).
+    let _ = ahash07::RandomState::new();
     let args: Vec<String> = std::env::args().collect();
     let a = |i: usize| args.get(i).map(|s| s.as_str());
     match a(1) {
@@ -137,12 +159,41 @@ fn main() {
                         if a.log_hash != b.log_hash {
                             diff += 1;
                             println!("DIVERGED seed index {i}: {:016x} vs {:016x}", a.log_hash, b.log_hash);
+                            // with RLSIM_WANT_LOG=1: where the event logs part
+                            for (k, (x, y)) in a.log.iter().zip(b.log.iter()).enumerate() {
+                                if x != y {
+                                    for l in &a.log[k.saturating_sub(3)..(k + 2).min(a.log.len())] {
+                                        println!("    a| {l}");
+                                    }
+                                    for l in &b.log[k.saturating_sub(1)..(k + 2).min(b.log.len())] {
+                                        println!("    b| {l}");
+                                    }
+                                    break;
+                                }
+                            }
                         }
                     }
                     _ => herr += 1,
                 }
             }
-            println!("determinism: {n} seeds x2, {diff} diverged, {herr} harness errors, workers={w}");
+            // and across invocation paths: the same seeds once more, each in a child forked
+            // straight from this process (what `replay` does) instead of from a batch worker
+            let direct = n.min(40);
+            let id2 = a(2).unwrap().to_string();
+            for i in 0..direct {
+                let case = cases::gen_case(&id2, rng::run_seed(base, i as u64));
+                let r = sup::run_in_child(&case, true, 300);
+                if let Some((_, a)) = &rs[2 * i] {
+                    if a.log_hash != r.log_hash {
+                        diff += 1;
+                        println!(
+                            "DIVERGED seed index {i} (batch worker vs direct child): {:016x} vs {:016x}",
+                            a.log_hash, r.log_hash
+                        );
+                    }
+                }
+            }
+            println!("determinism: {n} seeds x2 (+{direct} again from a direct child), {diff} diverged, {herr} harness errors, workers={w}");
             std::process::exit(if diff == 0 && herr == 0 { 0 } else { 2 });
         }
         _ => usage(),
